@@ -311,7 +311,7 @@ func (p *pipe) deliver(h *half) {
 			k = n
 		}
 		if k < n {
-			p.s.Probes["net_split_delivery"]++
+			p.s.Probe("net_split_delivery")
 		}
 		h.readable = append(h.readable, h.inflight[:k]...)
 		h.inflight = h.inflight[k:]
